@@ -732,6 +732,27 @@ theorem keyed_eq (W : DWorld) (k : List Slot) (hs : List DHandler) (args : List 
     unfold rankSpec
     rw [hnone]
 
+/-- the hypothesis `RankOK.hashable` had before the repair of finding D32 (all arguments hashable) implies the
+    present one -/
+theorem hashable_of_args (k : List Slot) (hs : List DHandler) (args : List (Slot × DVal))
+    (hh : ∀ a ∈ args, a.2.eq < unhashableFrom) :
+    ∀ s ∈ k, ∀ v, argAt args s = some v → unhashableFrom ≤ v.eq →
+      ∀ h ∈ hs, ∀ ks b, dTyAt h s = .lit ks b → v.eq ∉ ks := by
+  intro s _ v hv hu
+  obtain ⟨a, ha, hav⟩ := argAt_mem args s v hv
+  have := hh a ha
+  rw [hav] at this
+  omega
+
+/-- so does "the keys of the Literals of the rank are hashable", whatever the arguments -/
+theorem hashable_of_keys (k : List Slot) (hs : List DHandler) (args : List (Slot × DVal))
+    (hh : ∀ h ∈ hs, ∀ s ∈ k, ∀ ks b, dTyAt h s = .lit ks b → ∀ x ∈ ks, x < unhashableFrom) :
+    ∀ s ∈ k, ∀ v, argAt args s = some v → unhashableFrom ≤ v.eq →
+      ∀ h ∈ hs, ∀ ks b, dTyAt h s = .lit ks b → v.eq ∉ ks := by
+  intro s hs' v _ hu h hmem ks b ht hin
+  have := hh h hmem s hs' ks b ht v.eq hin
+  omega
+
 /-- the three emitted bodies all implement `rankSpec` -/
 theorem dispatch_eq_rankSpec (W : DWorld) (k : List Slot) (hs : List DHandler) (args : List (Slot × DVal))
     (ok : RankOK W k hs args) : dispatch W k hs args = rankSpec W k hs args := by
@@ -745,12 +766,25 @@ theorem dispatch_eq_rankSpec (W : DWorld) (k : List Slot) (hs : List DHandler) (
     obtain ⟨hsk, hd, hkeyed⟩ := inv.key s hks
     obtain ⟨v, hv⟩ := ok.present s hsk
     simp only [hv]
-    obtain ⟨a, ha, hav⟩ := argAt_mem args s v hv
-    have hh := ok.hashable a ha
-    rw [hav] at hh
-    rw [if_neg (by omega)]
-    rw [htab, hkeyed]
-    exact keyed_eq W k hs args ok hrel s hsk hd v hv
+    by_cases hu : v.eq ≥ unhashableFrom
+    · -- an unhashable argument: the table lookup falls through; no Literal of the rank contains the value
+      rw [if_pos hu]
+      have hnone : hs.filter (accepts W k args) = [] := by
+        rw [List.filter_eq_nil_iff]
+        intro h hh hacc
+        obtain ⟨ks, b, ht⟩ := hd.1 h hh
+        have hk : v.eq ∈ keysOf s h := by
+          rcases accepts_key W k args h s hsk v hv hacc with h' | h'
+          · exact h'
+          · exact absurd (hd.1 h hh) h'
+        unfold keysOf at hk
+        rw [ht] at hk
+        exact ok.hashable s hsk v hv hu h hh ks b ht ((mem_dedupNats _ _).mp hk)
+      unfold rankSpec
+      rw [hnone]
+    · rw [if_neg hu]
+      rw [htab, hkeyed]
+      exact keyed_eq W k hs args ok hrel s hsk hd v hv
   | firstMatch =>
     simp only
     rw [go_eq W k args hs hc]
